@@ -79,7 +79,8 @@ def run_cli(argv, stdin_bytes=b'', files=None, plans=None, stdin_plan=None, stdo
     import select as _select
     simsel = _SimSelect(stdin, stdin_slow, k)
     _select.select = simsel
-    sys.argv = ['penman'] + list(argv)
+    # the code under test is handed real paths (every simulated file also exists in the scratch directory)
+    sys.argv = ['penman'] + [fs.real(a) if isinstance(a, str) and a.startswith('/sim/') else a for a in argv]
     sys.stdin, sys.stdout, sys.stderr = stdin, stdout, stderr
     try:
         try:
